@@ -671,6 +671,8 @@ class Interp:
         if isinstance(obj, ModuleRef):
             self.world.set_global(self, obj, name, v)
             return
+        if isinstance(obj, SElem) and name in ("info", "name"):
+            return      # documentation / display name of an abstract value: not modelled
         self.unsupported(f"setattr on {type(obj).__name__}", node)
 
     # ------------------------------------------------------------------ expressions
@@ -1423,7 +1425,7 @@ class Interp:
         if d.is_sym():
             kt = self.world.key_term(self, d, key, node)
             self.guard(mk_bool(z3.Select(d.sym_dom, kt)), "KeyError", node)
-            return SElem(z3.Select(d.sym_val, kt), "val")
+            return SElem(z3.Select(d.sym_val, kt), getattr(d, "val_sort", "val"))
         ent = self.dict_find(d, key, node)
         if ent is None:
             self.throw("KeyError", "key", node)
